@@ -52,7 +52,16 @@ var monitorRegistry = map[string]func() Monitor{
 	"C05": func() Monitor { return NewMonC05() },
 	"C06": func() Monitor { return NewMonC06() },
 	"C07": func() Monitor { return NewMonC07() },
+	"C08": func() Monitor { return NewMonC08() },
+	"C09": func() Monitor { return NewMonC09() },
+	"C10": func() Monitor { return NewMonC10() },
+	"C11": func() Monitor { return NewMonC11() },
 	"C14": func() Monitor { return NewMonC14() },
+	"C05/C01": func() Monitor { return &relabel{inner: NewMonC01(), prop: "C05", afterCrash: true} },
+	"C05/C02": func() Monitor { return &relabel{inner: NewMonC02(), prop: "C05", afterCrash: true} },
+	"C05/C03": func() Monitor { return &relabel{inner: NewMonC03(), prop: "C05", afterCrash: true} },
+	"C05/C04": func() Monitor { return &relabel{inner: NewMonC04(), prop: "C05", afterCrash: true} },
+	"C05/C06": func() Monitor { return &relabel{inner: NewMonC06(), prop: "C05", afterCrash: false} },
 }
 
 // RunJob executes one job in this process.
